@@ -142,6 +142,9 @@ pub fn gen_live(property: &str, profile: &str, seed: u64) -> Plan {
 pub fn gen_tools(property: &str, profile: &str, seed: u64) -> Plan {
     let (mut plan, mut sw) = base_plan(property, profile, seed);
     plan.store.key_len = 8; // read_index supports key sizes 4,8,16,32,64,128 only
+    // two-entry metas serialise in HashMap order (differs between processes): not replayable under byte flips
+    plan.n_metas = plan.n_metas.min(2);
+    sw.n_metas = plan.n_metas;
     plan.store.max_data_in_blob = *sw.rng.pick(&[3u64, 5, 8, 20]);
     plan.store.deferred_min_ms = 100;
     plan.store.deferred_max_ms = 300;
